@@ -40,7 +40,7 @@ type Stress struct {
 
 func genStress(t *rapid.T) Stress {
 	s := Stress{
-		Transport: rapid.SampledFrom([]string{"realUDP", "realTCP", "realTCP", "memTCP", "memTCP", "memPacket", "lnsUDP", "lnsTCP"}).Draw(t, "transport"),
+		Transport: rapid.SampledFrom([]string{"realUDP", "realTCP", "realTCP", "memTCP", "memTCP", "memPacket", "lnsUDP", "lnsTCP", "lnsUDP6", "lnsTCP6"}).Draw(t, "transport"),
 		Clients:   rapid.IntRange(0, 8).Draw(t, "clients"),
 		Reqs:      rapid.IntRange(1, 4).Draw(t, "reqs"),
 		Mode:      rapid.SampledFrom([]string{"blind", "timed", "timed", "timed"}).Draw(t, "mode"),
@@ -54,7 +54,7 @@ func genStress(t *rapid.T) Stress {
 			s.Transport = rapid.SampledFrom([]string{"lnsUDP", "lnsUDP", "lnsTCP"}).Draw(t, "transport0")
 		}
 		for i := 1; i < s.Restarts; i++ {
-			s.Seq = append(s.Seq, rapid.SampledFrom([]string{"lnsTCP", "lnsTCP", "lnsUDP", "lnsUDP", "realTCP", "realUDP", "memTCP", "memPacket"}).Draw(t, "transportN"))
+			s.Seq = append(s.Seq, rapid.SampledFrom([]string{"lnsTCP", "lnsTCP", "lnsUDP", "lnsUDP", "lnsUDP6", "lnsTCP6", "realTCP", "realUDP", "memTCP", "memPacket"}).Draw(t, "transportN"))
 		}
 		s.KeepFields = rapid.IntRange(0, 3).Draw(t, "keepFields") > 0
 	}
@@ -68,9 +68,20 @@ func genStress(t *rapid.T) Stress {
 	return s
 }
 
-func packetTransport(tr string) bool { return strings.HasSuffix(tr, "UDP") || tr == "memPacket" }
+func packetTransport(tr string) bool { return strings.Contains(tr, "UDP") || tr == "memPacket" }
+
+// ipv6Loopback reports (once) whether [::1] can be bound.
+var ipv6Loopback = sync.OnceValue(func() bool {
+	p, err := net.ListenPacket("udp6", "[::1]:0")
+	if err != nil {
+		return false
+	}
+	p.Close()
+	return true
+})
 
 type stressRun struct {
+	noV6     bool
 	nonce    string
 	s        Stress
 	active   atomic.Int32
@@ -114,6 +125,9 @@ func checkStress(s Stress) error {
 		overlapAny = overlapAny || ov
 	}
 	cl := []string{"transport=" + s.Transport, "mode=" + s.Mode, fmt.Sprintf("cycles=%d", s.Restarts)}
+	if r.noV6 {
+		cl = append(cl, "ipv6-unavailable")
+	}
 	prev := s.Transport
 	for _, tr := range s.Seq {
 		cl = append(cl, "transport="+tr)
@@ -143,6 +157,10 @@ func (r *stressRun) cycle(srv *dns.Server, cycle int) (overlap bool, err error) 
 	s := r.s
 	if cycle > 0 && cycle-1 < len(s.Seq) {
 		s.Transport = s.Seq[cycle-1]
+	}
+	if strings.HasSuffix(s.Transport, "6") && !ipv6Loopback() {
+		s.Transport = strings.TrimSuffix(s.Transport, "6") // no IPv6 here: same round over IPv4
+		r.noV6 = true
 	}
 	r.returned.Store(false)
 	var (
@@ -185,6 +203,10 @@ func (r *stressRun) cycle(srv *dns.Server, cycle int) (overlap bool, err error) 
 		srv.Net, srv.Addr = "udp", "127.0.0.1:0"
 	case "lnsTCP":
 		srv.Net, srv.Addr = "tcp", "127.0.0.1:0"
+	case "lnsUDP6":
+		srv.Net, srv.Addr = "udp6", "[::1]:0"
+	case "lnsTCP6":
+		srv.Net, srv.Addr = "tcp6", "[::1]:0"
 	default:
 		return false, fmt.Errorf("unknown transport %q", s.Transport)
 	}
@@ -200,7 +222,7 @@ func (r *stressRun) cycle(srv *dns.Server, cycle int) (overlap bool, err error) 
 		}
 	}()
 	lnsAddr := func() string { // only valid after the start notification
-		if s.Transport == "lnsTCP" {
+		if strings.HasPrefix(s.Transport, "lnsTCP") {
 			return srv.Listener.Addr().String()
 		}
 		return srv.PacketConn.LocalAddr().String()
@@ -222,9 +244,9 @@ func (r *stressRun) cycle(srv *dns.Server, cycle int) (overlap bool, err error) 
 			c, e = net.DialTimeout("tcp", rawLis.Addr().String(), 2*time.Second)
 		case "realUDP":
 			c, e = net.Dial("udp", udp.LocalAddr().String())
-		case "lnsTCP":
+		case "lnsTCP", "lnsTCP6":
 			c, e = net.DialTimeout("tcp", lnsAddr(), 2*time.Second)
-		case "lnsUDP":
+		case "lnsUDP", "lnsUDP6":
 			c, e = net.Dial("udp", lnsAddr())
 		}
 		if e != nil {
@@ -268,7 +290,7 @@ func (r *stressRun) cycle(srv *dns.Server, cycle int) (overlap bool, err error) 
 				for i := 0; e == nil && !isMem && !strings.Contains(replyToken(rep), r.nonce) && i < 8; i++ {
 					// not from this run's server: a loopback port just released by it (or by this
 					// client) now belongs to another process (see newNonce)
-					if strings.HasSuffix(s.Transport, "TCP") {
+					if strings.Contains(s.Transport, "TCP") {
 						return
 					}
 					rep, e = co.ReadMsg()
@@ -453,11 +475,11 @@ func (r *stressRun) cycle(srv *dns.Server, cycle int) (overlap bool, err error) 
 			udp.Close()
 			return false, fmt.Errorf("I6: UDP socket was still open after shutdown")
 		}
-	case s.Transport == "lnsTCP":
+	case strings.HasPrefix(s.Transport, "lnsTCP"):
 		if e := srv.Listener.Close(); e == nil {
 			return false, fmt.Errorf("I6: the TCP listener opened by ListenAndServe was still open after shutdown")
 		}
-	case s.Transport == "lnsUDP":
+	case strings.HasPrefix(s.Transport, "lnsUDP"):
 		if e := srv.PacketConn.SetReadDeadline(time.Time{}); e == nil {
 			srv.PacketConn.Close()
 			return false, fmt.Errorf("I6: the UDP socket opened by ListenAndServe was still open after shutdown")
